@@ -30,6 +30,8 @@ pub fn strategy(tier: Tier) -> BS<Case> {
     let mut cfg = gen::ChainCfg::new(tier, gen::ordinary_script(tier));
     cfg.tx.big_counts = true;
     cfg.tx.max_value = u64::MAX;
+    // null outpoints (coinbase-shaped inputs) in any position of multi-input transactions
+    cfg.tx.src = prop_oneof![8 => gen::default_src(), 1 => Just(vpmodel::spec::Src::Null)].boxed();
     cfg.nblocks = (1usize..=6).boxed();
     cfg.ntx = prop_oneof![6 => 0usize..4, 2 => 4usize..12, 1 => Just(0xfbusize), 1 => Just(0xfcusize), 1 => Just(0xfdusize)].boxed();
     // a script's length class is drawn per output: add the raw length classes explicitly
